@@ -127,7 +127,8 @@ def stepInst (b : Builder) (ws : List String) : Except String Builder :=
     | some idx, some ms, some arcs, some par =>
       let u : PlanU := if kind = "stops" then .stops ms arcs else .units (kind = "oneof") ms
       .ok { b with inst := { b.inst with units := setAt b.inst.units idx u (.stops [] []),
-                                          parent := setAt b.inst.parent idx par none } }
+                                          parent := setAt b.inst.parent idx par none,
+                                          loose := if kind = "allloose" then idx :: b.inst.loose else b.inst.loose } }
     | _, _, _, _ => .error "unit"
   | ["end"] => (finish b).map (fun i => { b with inst := i })
   | _ => .error "inst?"
@@ -232,7 +233,7 @@ def verdict (inst : Inst) (o : Obs) : List String := Id.run do
         let roots := (List.range inst.units.size).filter (isRoot inst)
         let wrong := roots.filter (fun u => o.books.unplanned.contains u == unitPlanned inst o.routes u)
         let ks := wrong.map (unitKind inst)
-        let kinds := (["oneof", "all", "stops-multi", "stops-single"].filter (fun k => ks.contains k))
+        let kinds := (["oneof", "all", "allloose", "stops-multi", "stops-single"].filter (fun k => ks.contains k))
         let sigd := if near listed (theirs.getD k 0) then "follows-bookkeeping-of-" ++ "+".intercalate kinds else "independent-of-bookkeeping"
         out := out ++ [s!"C05:unplanned-penalty:{sigd}:spec={showRat (mine.getD k 0)}-code={showRat (theirs.getD k 0)}"]
       else
